@@ -3,6 +3,7 @@
 //   c02 im-algebra <seed> <n> <outbase>   (geom::IntersectionMatrix get/set/setAtLeast/transpose/matches on random matrices)
 //   c02 rect-fast <seed> <n> <outbase>    (operation::predicate::RectangleIntersects and its three callers on exact lattice input)
 //   c02 point-setxy <seed> <n> <outbase>  (one geom::Point overwritten by setXY again and again: coordinate and cached envelope)
+//   c02 pred-converse <seed> <n> <outbase> (the real RelatePredicate classes: a predicate on (A,B) and its converse on (B,A), flags / init / mirrored events)
 //   c02 replay <file>
 #include "relobs.h"
 #include "c02gen.h"
@@ -11,6 +12,8 @@
 #include <geos/geom/Polygon.h>
 #include <geos/geom/prep/PreparedGeometryFactory.h>
 #include <geos/operation/predicate/RectangleIntersects.h>
+#include <geos/operation/relateng/RelatePredicate.h>
+#include <geos/geom/Envelope.h>
 #include <cstdarg>
 #include <fstream>
 #include <iostream>
@@ -186,6 +189,44 @@ int main(int argc, char** argv) {
             out.count(std::string("match_") + (mt == '1' ? "true" : mt == '0' ? "false" : "throws"));
             out.emit("A " + m + " " + (pat.empty() ? std::string("-") : pat) + " " + std::to_string(ga) + std::to_string(gb) + ops, e); }
         GEOS_finish_r(h); return 0; }
+    if (stream == "pred-converse") {
+        // the real predicate classes: a predicate k asked about (A,B) and its converse asked about (B,A) - requirement flags, dimension and
+        // envelope initialisation, then the same random events (mirrored for the converse), then finish
+        using namespace geos::operation::relateng; using geos::geom::Location; using geos::geom::Envelope;
+        static const char* kinds[] = {"intersects", "disjoint", "contains", "within", "covers", "coveredBy", "crosses", "equalsTopo", "overlaps", "touches", "pattern"};
+        static const int conv[] = {0, 1, 3, 2, 5, 4, 6, 7, 8, 9, 10};
+        auto make = [](int ki, const std::string& pat) -> std::unique_ptr<TopologyPredicate> {
+            switch (ki) { case 0: return RelatePredicate::intersects(); case 1: return RelatePredicate::disjoint(); case 2: return RelatePredicate::contains();
+                case 3: return RelatePredicate::within(); case 4: return RelatePredicate::covers(); case 5: return RelatePredicate::coveredBy();
+                case 6: return RelatePredicate::crosses(); case 7: return RelatePredicate::equalsTopo(); case 8: return RelatePredicate::overlaps();
+                case 9: return RelatePredicate::touches(); default: return RelatePredicate::matches(pat); } };
+        static const Location locs[3] = {Location::INTERIOR, Location::BOUNDARY, Location::EXTERIOR};
+        for (long i = 0; i < n; i++) {
+            int ki = (int) r.below(11); std::string pat, tpat;
+            if (ki == 10) { static const char sym[] = "TF*012**"; for (int k = 0; k < 9; k++) pat += sym[r.below(8)];
+                if (r.chance(40)) pat = FIXED_PATTERNS[r.below(sizeof FIXED_PATTERNS / sizeof FIXED_PATTERNS[0])];
+                tpat = pat; std::swap(tpat[1], tpat[3]); std::swap(tpat[2], tpat[6]); std::swap(tpat[5], tpat[7]); }
+            auto p = make(ki, pat), q = make(conv[ki], tpat);
+            out.count(std::string("kind_") + kinds[ki]);
+            int dA = r.range(-1, 2), dB = r.range(-1, 2);
+            auto box = [&](bool& isnull, int v[4]) { isnull = r.chance(8); int x0 = r.range(0, 4), x1 = r.range(x0, 5), y0 = r.range(0, 4), y1 = r.range(y0, 5); v[0] = x0; v[1] = x1; v[2] = y0; v[3] = y1; };
+            bool na, nb; int a[4], b[4]; box(na, a); box(nb, b); if (r.chance(15)) { nb = na; for (int k = 0; k < 4; k++) b[k] = a[k]; }
+            Envelope ea = na ? Envelope() : Envelope(a[0], a[1], a[2], a[3]); Envelope eb = nb ? Envelope() : Envelope(b[0], b[1], b[2], b[3]);
+            auto st = [](TopologyPredicate& x) -> char { return x.isKnown() ? (x.value() ? 't' : 'f') : 'u'; };
+            auto fl = [](TopologyPredicate& x) { std::string f; f += x.requireCovers(true) ? '1' : '0'; f += x.requireCovers(false) ? '1' : '0';
+                f += x.requireExteriorCheck(true) ? '1' : '0'; f += x.requireExteriorCheck(false) ? '1' : '0'; f += x.requireInteraction() ? '1' : '0'; return f; };
+            std::string e = fl(*p) + " " + fl(*q) + " ";
+            p->init(dA, dB); q->init(dB, dA); e += st(*p); e += st(*q);
+            p->init(ea, eb); q->init(eb, ea); e += st(*p); e += st(*q);
+            int nu = r.range(0, 9); std::string ups;
+            for (int k = 0; k < nu; k++) { int la = (int) r.below(3), lb = (int) r.below(3), d = r.range(0, 2);
+                if (dA == 1 && dB == 1 && la == 0 && lb == 0 && d == 2) d = 1;
+                p->updateDimension(locs[la], locs[lb], d); q->updateDimension(locs[lb], locs[la], d);
+                ups += " " + std::to_string(la) + std::to_string(lb) + std::to_string(d); }
+            p->finish(); q->finish(); e += ' '; e += st(*p); e += st(*q);
+            auto envs = [&](bool isnull, int v[4]) { return isnull ? std::string("n") : (std::to_string(v[0]) + " " + std::to_string(v[1]) + " " + std::to_string(v[2]) + " " + std::to_string(v[3])); };
+            out.emit("V " + std::string(kinds[ki]) + (ki == 10 ? ":" + pat : "") + " " + std::to_string(dA) + " " + std::to_string(dB) + " | " + envs(na, a) + " | " + envs(nb, b) + " |" + ups, e); }
+        GEOS_finish_r(h); return 0; }
     if (stream == "point-setxy") {
         // one geom::Point, overwritten by setXY over and over (what the XY predicate forms do with the context's scratch point): after every
         // call the coordinate AND the cached envelope are observed.  Ordinates come from a small pool so that consecutive calls often keep x or y.
@@ -256,7 +297,12 @@ int main(int argc, char** argv) {
         gen.setPartner(A, r.chance(80) ? 55 : 0);
         GGeom B;
         int mode = (int) r.below(100);
-        if (r.chance(12)) {
+        bool exactMap = false; FreePair fpair;
+        if (r.chance(8) && (fpair = freeElementPair(r, gen)).ok) {
+            // a partner WITHOUT area and a multi-element geometry of which one element is free (no common point, inside the partner's envelope)
+            // while the others lie in the partner; mostly under an EXACT map (power-of-two scale, integer offset) so that "lies in" stays exact
+            wantRect = false; A = fpair.S; B = fpair.T; exactMap = r.chance(75); out.count("free_element_pairs"); if (exactMap) out.count("free_element_pairs_exact_map"); }
+        else if (r.chance(12)) {
             // polygons whose HOLES decide: the partner's vertices all lie inside holes (outside the polygon) while its edges cross the solid part;
             // half of the time the partner is an axis-parallel rectangle (fast paths), its ring in any of the eight vertex orders
             Cheese c = makeCheese(r, gen); B = GGeom{}; B.container = 0; B.elems.push_back(c.poly); GElem re;
@@ -284,6 +330,8 @@ int main(int argc, char** argv) {
         t.a = mag * std::cos(th); t.b = -mag * std::sin(th) + shear * mag; t.c = mag * std::sin(th); t.d = mag * std::cos(th);
         if (th == 0.0) { t.b = 0; t.c = 0; }
         double off = r.chance(30) ? 0.0 : std::pow(10.0, r.range(-3, 9)); t.tx = off * (r.unit() - 0.5) * 2; t.ty = off * (r.unit() - 0.5) * 2;
+        if (exactMap) { int k = r.chance(40) ? 0 : r.range(-20, 20); double sc = std::ldexp(1.0, k); th = 0.0; t.a = t.d = sc; t.b = t.c = 0;
+            t.tx = sc * (double) r.range(-100000, 100000); t.ty = sc * (double) r.range(-100000, 100000); }
         std::string ta = geomTokD(A, t), tb = geomTokD(B, t);
         std::unique_ptr<Geometry> ga, gb;
         try { ga = buildGeom(ta, gf); gb = buildGeom(tb, gf); } catch (...) { out.count("build_rejected"); continue; }
